@@ -419,6 +419,14 @@ def minimise(prop, desc, inv, budget=300):
 
 
 def replay(prop, payload):
+    if payload.get("engine") == "A":
+        from .anchor import run_anchors
+
+        for a in run_anchors(prop, names=[payload["anchor"]]):
+            ov = a["real"].get("oracle_violation")
+            if ov:
+                return Violation(prop, ov["inv"], ov["detail"])
+        return None
     v, _ = execute(prop, payload["desc"])
     return v
 
@@ -502,6 +510,25 @@ def run_check(prop, tier, seed, args):
         print(f"  invariant={vv.inv} run={r['i']} seed={seed} items={len(mdesc['items'])} n_workers={mdesc['n_workers']}")
         print(f"  detail: {vv.detail}")
         rc = 1
+    anchors = None
+    if rc == 0 and (tier == "thorough" or os.environ.get("DSIM_ANCHORS") == "1"):
+        # real spawned runs: conformance anchors for the process stub (DESIGN 2.8)
+        from .anchor import run_anchors
+
+        anchors = run_anchors(prop)
+        for a in anchors:
+            if a["real"].get("oracle_violation"):
+                payload = {"property": prop, "engine": "A", "seed": seed, "run_index": -2, "invariant": a["real"]["oracle_violation"]["inv"],
+                           "detail": "REAL spawned parallel_add: " + a["real"]["oracle_violation"]["detail"], "anchor": a["name"],
+                           "tree_hash": boot.TREE_HASH}
+                path = write_replay(prop, seed, "anchor-" + a["name"], payload)
+                print(f"VIOLATION property={prop} replay={path}")
+                print(f"  invariant={payload['invariant']} (real multiprocessing, schedule not controlled) detail: {payload['detail']}")
+                rc = 1
+            elif not a["agree"]:
+                print(f"HARNESS-ERROR process stub does not conform to real multiprocessing on anchor {a['name']}: "
+                      f"real={a['real']} sim={a['sim']}", file=sys.stderr)
+                return 2
     nre = 0
     if rc == 0 and not agg.violations:
         from .cli import recheck_sample
@@ -519,5 +546,6 @@ def run_check(prop, tier, seed, args):
                     "sampling, not proof"],
                    extra={"distinct_item_to_worker_assignments": len(assignments), "distinct_per_worker_orders": len(orders),
                           "stop_reason": reason or "completed", "runs_requested": n_runs, "workers": workers, "tree_hash": boot.TREE_HASH,
-                          "runs_reexecuted_for_determinism": nre})
+                          "runs_reexecuted_for_determinism": nre,
+                          "real_spawned_anchors": anchors if anchors is not None else "thorough tier only"})
     return rc
